@@ -169,10 +169,20 @@ pub fn perturb(inst: &mut Instance, base: &Base, p: &Perturb) {
         4 => pm(&mut c.traces.original.n_columns, p.val),
         5 => pm(&mut c.traces.interaction.n_columns, p.val),
         6 => {
+            // the layout's own counts stay inside what a layout can have (1..=128)
+            let bump = |f: &mut Felt, sel: u8| {
+                let v = big(f).iter_u64_digits().next().unwrap_or(1);
+                let nv = match sel % 3 {
+                    0 => v + 1,
+                    1 => v.saturating_sub(1),
+                    _ => v + 2,
+                };
+                *f = Felt::from(nv.clamp(1, 128));
+            };
             if p.val % 2 == 0 {
-                pm(&mut inst.n1, p.val / 2)
+                bump(&mut inst.n1, p.val / 2)
             } else {
-                pm(&mut inst.n2, p.val / 2)
+                bump(&mut inst.n2, p.val / 2)
             }
         }
         7 => {
@@ -385,7 +395,13 @@ pub fn strategy() -> impl Strategy<Value = Case> {
         prop_oneof![3 => 20u8..=50, 1 => Just(20u8), 1 => Just(50u8)],
         prop_oneof![2 => Just(0u32), 1 => 0u32..40],
     )
-        .prop_map(|((n1, n2), steps, log_last, cosets, nvf, queries, pow, slack)| Base { n1, n2, steps, log_last, cosets, nvf, queries, pow, slack });
+        .prop_map(|((n1, n2), mut steps, log_last, cosets, nvf, queries, pow, slack)| {
+            // keep the trace exponent at honest sizes (the statement is silent about its magnitude)
+            while steps.iter().sum::<u32>() > 28 {
+                steps.pop();
+            }
+            Base { n1, n2, steps, log_last, cosets, nvf, queries, pow, slack }
+        });
     (base, proptest::collection::vec((0u8..FIELDS.len() as u8, any::<u8>(), any::<u8>()).prop_map(|(field, val, idx)| Perturb { field, val, idx }), 0..=2))
         .prop_map(|(base, perturbs)| Case { base, perturbs })
 }
